@@ -185,6 +185,7 @@ type point struct {
 	ShapeKind  string    `json:"from_shape_kind"`
 	Header     string    `json:"header"`
 	From       string    `json:"from_domain"` // the author domain when Shape == one
+	Froms      []string  `json:"from_domains,omitempty"` // Shape == several
 	DKIM       []dkimRes `json:"dkim"`
 	SPF        spfRes    `json:"spf"`
 	Rec        recordCfg `json:"record"`
